@@ -161,6 +161,10 @@ func (a *agg) add(r *RunResult, prop string) {
 	}
 }
 
+// raceFamilies: the workloads of the race pass (every family with several library goroutines
+// sharing state; C04's own come first).
+var raceFamilies = []string{"mesh", "relay", "close", "cancel", "pressure", "conns", "poison", "hostile", "dial", "timeline"}
+
 type found struct {
 	v   Violation
 	res *RunResult
@@ -337,7 +341,11 @@ func cmdRun(args []string) int {
 			}
 		}
 		mkR := func(i int) RunSpec {
-			fam := fams[i%len(fams)].Name
+			rf := raceFamilies
+			if *famFlag != "" {
+				rf = []string{*famFlag}
+			}
+			fam := rf[i%len(rf)]
 			return RunSpec{Family: fam, Prop: pc.ID, Seed: splitmix(splitmix(seed^strHash(pc.ID+"/race")) + uint64(i)), Case: -1, Race: true}
 		}
 		if *tier == "quick" {
